@@ -44,6 +44,9 @@ func scenariosC02() []*scenario {
 		out = append(out, &scenario{name: fmt.Sprintf("c02/s%d/evict", s0), base: s0, opt: options{faults: true}, bound: 1, poolSize: 2,
 			rounds: [][]string{{}, {}}, subs: [][]string{{"~a"}, {"b"}, {"c"}}, uploadsInOrder: true})
 	}
+	// failures that look like timeouts (wrap context.DeadlineExceeded)
+	out = append(out, &scenario{name: "c02/s0/timeouts", base: 0, opt: options{faults: true, deadlineErrs: true}, bound: 1,
+		rounds: [][]string{{}, {}, {}}, subs: [][]string{{"a"}, {"b"}}, uploadsInOrder: true})
 	return out
 }
 
@@ -53,6 +56,10 @@ func TestVerifC02(t *testing.T) { runProperty(t, "C02", scenariosC02()) }
 func scenariosC03() []*scenario {
 	thorough := verifmc.Tier() == "thorough"
 	var out []*scenario
+	// failures that look like timeouts, combined with crashes
+	o := crashOpts()
+	o.deadlineErrs = true
+	out = append(out, &scenario{name: "c03/s255/timeouts", base: 255, opt: o, bound: 1, rounds: [][]string{{"a", "b"}, {}, {"c"}}, resubmit: true, uploadsInOrder: true})
 	sizes := []int64{0, 1, 255, 256, 257}
 	if thorough {
 		sizes = append(sizes, 511, 512)
